@@ -3,6 +3,7 @@ C07 — Retry and Catch follow the States Language error-handling policy.
 -/
 import AslModel.Retry
 import AslModel.Interp
+import AslModel.Lite
 namespace Asl.C07
 open Asl
 
@@ -196,12 +197,138 @@ theorem error_output_placed (env : Env) (fuel : Nat) (states : Json) (name next 
 
 /-- retry counters do not leak: the state entered after any transition starts with count 0
 (see also C01.next_followed) -/
-theorem retry_count_reset (env : Env) (fuel : Nat) (states : Json) (name next : Str) (state out ctx : Json)
+theorem retry_count_reset (env : Env) (fuel : Nat) (states : Json) (name next : Str) (state raw out ctx : Json)
     (retries : Nat) (st : St) (hE : isTrue (fld state "End") = false) (hN : fldStr state "Next" = some next)
     (hL : (render out).length ≤ env.maxData) :
-    leave env (fuel + 1) states name state out ctx retries st = runFrom env fuel states next out ctx 0 st := by
+    leave env (fuel + 1) states name state raw out ctx retries st = runFrom env fuel states next out ctx 0 st := by
   have : ¬ (render out).length > env.maxData := by omega
   simp [leave, hE, hN, this]
+
+/-! ### a refused transition is an error of the state, handled on its raw input
+
+`change_state` refuses the transition out of a state whose result has already been placed when the
+output text is longer than the size limit (`States.DataLimitExceeded`) or when there is no `Next`
+(`States.Runtime`).  The state's Retry / Catch then work on the data the state was *entered* with
+(`raw`), never on the output `out` that could not be handed on, and the retry count is the one the
+state was entered with. -/
+
+/-- oversize output: for every state, output and raw input, the error goes to the state's handler
+with the raw input and the unchanged retry count -/
+theorem refused_transition_handled_on_raw_input (env : Env) (fuel : Nat) (states : Json) (name next : Str)
+    (state raw out ctx : Json) (retries : Nat) (st : St)
+    (hE : isTrue (fld state "End") = false) (hN : fldStr state "Next" = some next)
+    (hL : (render out).length > env.maxData) :
+    leave env (fuel + 1) states name state raw out ctx retries st =
+      handleErr env fuel states name state raw ctx retries (S "States.DataLimitExceeded") (S "m") st := by
+  simp [leave, hE, hN, hL]
+
+/-- missing `Next`: the same with `States.Runtime` -/
+theorem missing_next_handled_on_raw_input (env : Env) (fuel : Nat) (states : Json) (name : Str)
+    (state raw out ctx : Json) (retries : Nat) (st : St)
+    (hE : isTrue (fld state "End") = false) (hN : fldStr state "Next" = none) :
+    leave env (fuel + 1) states name state raw out ctx retries st =
+      handleErr env fuel states name state raw ctx retries (S "States.Runtime") (S "m") st := by
+  simp [leave, hE, hN]
+
+/-- … and since `States.Runtime` is unrecoverable, a missing `Next` fails the scope whatever the
+state's Retry / Catch say -/
+theorem missing_next_fails (env : Env) (fuel : Nat) (states : Json) (name : Str)
+    (state raw out ctx : Json) (retries : Nat) (st : St)
+    (hE : isTrue (fld state "End") = false) (hN : fldStr state "Next" = none) :
+    leave env (fuel + 2) states name state raw out ctx retries st =
+      (.failed (S "States.Runtime") (some (.str (S "<cause>"))) false, st) := by
+  rw [missing_next_handled_on_raw_input env (fuel + 1) states name state raw out ctx retries st hE hN]
+  exact unhandled_fails_with_E env fuel states name state raw ctx retries _ _ st
+    (states_all_excludes_unrecoverable _ _ _ _ (by decide))
+
+/-- a state whose oversize output is refused and whose Retry grants a re-run is re-run on its **raw
+input** with the retry count incremented from the count it was entered with -/
+theorem refused_transition_retried_on_raw_input (env : Env) (fuel : Nat) (states : Json) (name next : Str)
+    (state raw out ctx : Json) (retries : Nat) (st : St) (d : Rat) (k : Nat)
+    (hE : isTrue (fld state "End") = false) (hN : fldStr state "Next" = some next)
+    (hL : (render out).length > env.maxData)
+    (h : decideError ((listOf (fld state "Retry")).map retrierOf) ((listOf (fld state "Catch")).map catcherOf)
+      (S "States.DataLimitExceeded") retries = .retry d k) :
+    leave env (fuel + 2) states name state raw out ctx retries st = runFrom env fuel states name raw ctx k st ∧
+      k = retries + 1 := by
+  rw [refused_transition_handled_on_raw_input env (fuel + 1) states name next state raw out ctx retries st hE hN hL]
+  exact ⟨retry_reruns_same_input env fuel states name state raw ctx retries _ _ st d k h,
+    (rerun_count_bounded _ _ _ _ _ _ h).1⟩
+
+/-- a state whose oversize output is refused and is caught: the successor is the catcher's `Next`,
+entered with the Error Output placed by the catcher's ResultPath into the state's **raw input** -/
+theorem refused_transition_caught_on_raw_input (env : Env) (fuel : Nat) (states : Json) (name next cnext : Str)
+    (state raw out raw' ctx : Json) (retries : Nat) (st : St) (c : Catcher)
+    (hE : isTrue (fld state "End") = false) (hN : fldStr state "Next" = some next)
+    (hL : (render out).length > env.maxData)
+    (h : decideError ((listOf (fld state "Retry")).map retrierOf) ((listOf (fld state "Catch")).map catcherOf)
+      (S "States.DataLimitExceeded") retries = .caught c)
+    (hn : c.next = some cnext)
+    (hp : applyResultPath raw (errorOutput (S "States.DataLimitExceeded") (causeOf (S "m")))
+      (match c.resultPath with | none => some ['$'] | some p => p) = .ok raw')
+    (hl : (render raw').length ≤ env.maxData) :
+    leave env (fuel + 2) states name state raw out ctx retries st = runFrom env fuel states cnext raw' ctx 0 st := by
+  rw [refused_transition_handled_on_raw_input env (fuel + 1) states name next state raw out ctx retries st hE hN hL]
+  exact error_output_placed env fuel states name cnext state raw raw' ctx retries _ _ st c h hn hp hl
+
+/-- the catch case with `ResultPath: null`: the Error Output is discarded and the successor is entered
+with **exactly the raw input** (not the oversize output, nor anything derived from it) -/
+theorem refused_transition_caught_null_resultpath (env : Env) (fuel : Nat) (states : Json) (name next cnext : Str)
+    (state raw out ctx : Json) (retries : Nat) (st : St) (c : Catcher)
+    (hE : isTrue (fld state "End") = false) (hN : fldStr state "Next" = some next)
+    (hL : (render out).length > env.maxData)
+    (h : decideError ((listOf (fld state "Retry")).map retrierOf) ((listOf (fld state "Catch")).map catcherOf)
+      (S "States.DataLimitExceeded") retries = .caught c)
+    (hn : c.next = some cnext) (hrp : c.resultPath = some none)
+    (hraw : raw ≠ .null) (hl : (render raw).length ≤ env.maxData) :
+    leave env (fuel + 2) states name state raw out ctx retries st = runFrom env fuel states cnext raw ctx 0 st := by
+  refine refused_transition_caught_on_raw_input env fuel states name next cnext state raw out raw ctx retries st c
+    hE hN hL h hn ?_ hl
+  simp [hrp, applyResultPath, hraw]
+
+/-- Parallel / Map: the join whose output is refused hands the error to the fan-out state's handler
+with the fan-out state's raw input and the retry count it was entered with (it is *kept*, so
+`MaxAttempts` still bounds the re-runs of a fan-out state whose output is too large) -/
+theorem fanout_refused_transition_keeps_retry_count (env : Env) (fuel : Nat) (states : Json) (name next : Str)
+    (state data ctx result out : Json) (results : List Json) (retries : Nat) (st : St) (d : Rat) (k : Nat)
+    (hs : tmplOpt env (.arr results) ctx (fld state "ResultSelector") = .ok result)
+    (hm : mergeResult data ctx result state = .ok out)
+    (hE : isTrue (fld state "End") = false) (hN : fldStr state "Next" = some next)
+    (hL : (render out).length > env.maxData)
+    (h : decideError ((listOf (fld state "Retry")).map retrierOf) ((listOf (fld state "Catch")).map catcherOf)
+      (S "States.DataLimitExceeded") retries = .retry d k) :
+    joinAndLeave env (fuel + 3) states name state data ctx retries (.ok results) st =
+      runFrom env fuel states name data ctx (retries + 1) st := by
+  have h2 := refused_transition_retried_on_raw_input env fuel states name next state data out ctx retries st d k
+    hE hN hL h
+  rw [← h2.2, ← h2.1]
+  simp [joinAndLeave, hs, hm]
+
+/-- Task: a successful reply whose placed result is too large is retried on the Task's raw input -/
+theorem task_refused_transition_retried_on_raw_input (env : Env) (fuel : Nat) (states : Json) (name fn next : Str)
+    (state data ctx input params v result out : Json) (retries : Nat) (st : St) (d : Rat) (k : Nat)
+    (h : stateType state = S "Task")
+    (hr : rpcFunction ((fldStr state "Resource").getD []) = some fn)
+    (hi : applyPath data ctx (pathArg state "InputPath") = .ok input)
+    (hp : tmplOpt env input ctx (fld state "Parameters") = .ok params)
+    (hv : taskReply env.maxData (env.task fn params (bump st.counts (fn, params)).1) = .ok v)
+    (hs : tmplOpt env v ctx (fld state "ResultSelector") = .ok result)
+    (hm : mergeResult data ctx result state = .ok out)
+    (hE : isTrue (fld state "End") = false) (hN : fldStr state "Next" = some next)
+    (hL : (render out).length > env.maxData)
+    (hd : decideError ((listOf (fld state "Retry")).map retrierOf) ((listOf (fld state "Catch")).map catcherOf)
+      (S "States.DataLimitExceeded") retries = .retry d k) :
+    runState env (fuel + 3) states name state data ctx retries st =
+      runFrom env fuel states name data ctx (retries + 1) { st with counts := (bump st.counts (fn, params)).2 } := by
+  have h2 := refused_transition_retried_on_raw_input env fuel states name next state data out ctx retries
+    { st with counts := (bump st.counts (fn, params)).2 } d k hE hN hL hd
+  rw [← h2.2, ← h2.1]
+  have h1 : (S "Task" = S "Pass") = False := by decide
+  have h2 : (S "Task" = S "Succeed") = False := by decide
+  have h3 : (S "Task" = S "Fail") = False := by decide
+  have h4 : (S "Task" = S "Wait") = False := by decide
+  have h5 : (S "Task" = S "Choice") = False := by decide
+  simp [runState, h, h1, h2, h3, h4, h5, hr, hi, hp, hv, hs, hm]
 
 /-! ### non-vacuity -/
 private def r1 : Retrier := { errorEquals := [S "A"], interval := 2, maxAttempts := 2, backoff := 3/2 }
@@ -213,5 +340,78 @@ example : decideError [r2] [{ errorEquals := [S "States.ALL"], next := some (S "
     = .uncaught := by rfl
 example : ∃ c, decideError [r2] [{ errorEquals := [S "States.ALL"], next := some (S "N"), resultPath := none }] (S "X") 0
     = .caught c := ⟨_, rfl⟩
+
+/-! refused transitions, on a concrete Task state: limit 50 characters, a worker whose reply is 42
+characters long (accepted) and makes the output 57 characters long (refused), Retry once on `States.DataLimitExceeded`, then Catch with `ResultPath: null` -/
+private def reply : Json := .str (S "0123456789012345678901234567890123456789")
+private def envS : Env :=
+  { tmpl := Lite.tmpl, choose := Lite.choose, maxData := 50, task := fun _ _ _ => reply }
+private def tState : Json := .obj [
+  (S "Type", .str (S "Task")), (S "Resource", .str (S "arn:aws:rpcmessage:local::function:f")),
+  (S "ResultPath", .str (S "$.r")), (S "Next", .str (S "N")),
+  (S "Retry", .arr [.obj [(S "ErrorEquals", .arr [.str (S "States.DataLimitExceeded")]), (S "MaxAttempts", .num 1)]]),
+  (S "Catch", .arr [.obj [(S "ErrorEquals", .arr [.str (S "States.ALL")]), (S "ResultPath", .null),
+    (S "Next", .str (S "C"))]])]
+private def succeedSt : Json := .obj [(S "Type", .str (S "Succeed"))]
+private def aslT : Json := .obj [(S "StartAt", .str (S "T")), (S "States", .obj [
+  (S "T", tState), (S "N", succeedSt), (S "C", succeedSt)])]
+private def rawIn : Json := .obj [(S "a", .num 1)]
+private def bigOut : Json := .obj [(S "a", .num 1), (S "r", reply)]
+private def theCatcher : Catcher :=
+  { errorEquals := [S "States.ALL"], next := some (S "C"), resultPath := some none }
+
+-- the hypotheses of `refused_transition_handled_on_raw_input` and its corollaries, on `tState`
+private theorem hEnd : isTrue (fld tState "End") = false := by rfl
+private theorem hNext : fldStr tState "Next" = some (S "N") := by rfl
+private theorem hBig : (render bigOut).length > envS.maxData := by decide
+private theorem hRetry0 : ∃ d, decideError ((listOf (fld tState "Retry")).map retrierOf)
+    ((listOf (fld tState "Catch")).map catcherOf) (S "States.DataLimitExceeded") 0 = .retry d 1 := ⟨_, rfl⟩
+private theorem hCaught1 : decideError ((listOf (fld tState "Retry")).map retrierOf)
+    ((listOf (fld tState "Catch")).map catcherOf) (S "States.DataLimitExceeded") 1 = .caught theCatcher := by rfl
+
+/-- the output `bigOut` is what the Task's ResultPath makes of the reply and the raw input `rawIn` -/
+example : mergeResult rawIn (.obj []) reply tState = .ok bigOut := by rfl
+/-- refused at retry count 0: handled on `rawIn` … -/
+example (fuel : Nat) (states ctx : Json) (st : St) :
+    leave envS (fuel + 1) states (S "T") tState rawIn bigOut ctx 0 st =
+      handleErr envS fuel states (S "T") tState rawIn ctx 0 (S "States.DataLimitExceeded") (S "m") st :=
+  refused_transition_handled_on_raw_input envS fuel states (S "T") (S "N") tState rawIn bigOut ctx 0 st hEnd hNext hBig
+/-- … which re-runs `T` on `rawIn` with retry count 1 … -/
+example (fuel : Nat) (states ctx : Json) (st : St) :
+    leave envS (fuel + 2) states (S "T") tState rawIn bigOut ctx 0 st =
+      runFrom envS fuel states (S "T") rawIn ctx 1 st := by
+  obtain ⟨d, hd⟩ := hRetry0
+  exact (refused_transition_retried_on_raw_input envS fuel states (S "T") (S "N") tState rawIn bigOut ctx 0 st d 1
+    hEnd hNext hBig hd).1
+/-- … and refused again at retry count 1: caught, `C` is entered with exactly `rawIn` -/
+example (fuel : Nat) (states ctx : Json) (st : St) :
+    leave envS (fuel + 2) states (S "T") tState rawIn bigOut ctx 1 st =
+      runFrom envS fuel states (S "C") rawIn ctx 0 st :=
+  refused_transition_caught_null_resultpath envS fuel states (S "T") (S "N") (S "C") tState rawIn bigOut ctx 1 st
+    theCatcher hEnd hNext hBig hCaught1 rfl rfl (by decide) (by decide)
+/-- the whole state, from `runState` (hypotheses of `task_refused_transition_retried_on_raw_input`) -/
+example (fuel : Nat) (states : Json) :
+    runState envS (fuel + 3) states (S "T") tState rawIn (.obj []) 0 {} =
+      runFrom envS fuel states (S "T") rawIn (.obj []) 1 { counts := [((S "f", rawIn), 1)] } := by
+  obtain ⟨d, hd⟩ := hRetry0
+  exact task_refused_transition_retried_on_raw_input envS fuel states (S "T") (S "f") (S "N") tState rawIn (.obj [])
+    rawIn rawIn reply reply bigOut 0 {} d 1 (by rfl) (by rfl) (by rfl) (by rfl) (by rfl) (by rfl) (by rfl)
+    hEnd hNext hBig hd
+/-- a fan-out state with the same Retry, entered with retry count 0 (hypotheses of
+`fanout_refused_transition_keeps_retry_count`; `tState`'s Type plays no part in the join) -/
+example (fuel : Nat) (states : Json) (st : St) :
+    joinAndLeave envS (fuel + 3) states (S "T") tState rawIn (.obj []) 0 (.ok [reply]) st =
+      runFrom envS fuel states (S "T") rawIn (.obj []) 1 st := by
+  obtain ⟨d, hd⟩ := hRetry0
+  have hb : (render (.obj [(S "a", .num 1), (S "r", .arr [reply])])).length > envS.maxData := by decide
+  exact fanout_refused_transition_keeps_retry_count envS fuel states (S "T") (S "N") tState rawIn (.obj [])
+    (.arr [reply]) _ [reply] 0 st d 1 (by rfl) (by rfl) hEnd hNext hb hd
+/-- the whole run: T is entered on `rawIn`, its output is refused, it is re-run once on `rawIn`, refused
+again, caught, and `C` is entered with exactly `rawIn` — which is the execution's output -/
+example : (run envS 20 aslT rawIn (.obj [])).status = S "SUCCEEDED" ∧
+    (run envS 20 aslT rawIn (.obj [])).output = some rawIn ∧
+    (run envS 20 aslT rawIn (.obj [])).trace = [S "T", S "C"] := by decide +kernel
+/-- a missing `Next` (hypotheses of `missing_next_handled_on_raw_input` / `missing_next_fails`) -/
+example : isTrue (fld succeedSt "End") = false ∧ fldStr succeedSt "Next" = none := ⟨by rfl, by rfl⟩
 
 end Asl.C07
